@@ -438,7 +438,7 @@ func c13Exec(c *Ctx, k c13Case, choices []int) {
 
 func c13Run(c *Ctx) {
 	mustBeDefault(c)
-	c.S.Rule = "cases = (stream, function, reader kind, handler stop point); streams are concatenations of 1..3 documents (XML: <a/>, <a>x</a>, <a b=\"1\"><c/>t</a>, a document with XML declaration, a document with 2-, 3- and 4-byte characters in names and values (every delivery split falls inside them); JSON: {\"a\":1}, a string value with braces and quotes, a string ending in an escaped backslash, a string with an escaped backslash followed by an escaped quote, nested object/array with a bracket in a string, multi-byte characters in key and value) with separators {none, space, newline+tab} and optional trailing blanks; functions NewMapXmlReader[Raw], NewMapXmlSeqReader[Raw], NewMapJsonReader[Raw], HandleXmlReader[Raw], HandleJsonReader[Raw] (map handler returning false at every k), x2j-wrapper ToMap / XmlMsgsFromReader; reader kinds plain io.Reader and io.Reader+io.ByteReader. Schedules (E-choice): every Read call is a choice point - default full delivery, short read, (0,nil) (at most 2 in a row), final data together with io.EOF - explored exhaustively for deviation bound 0,1,2 (3 in thorough on single documents); plus patterned schedules with 50 and 97 empty reads before every delivery (bound 1 over the remaining choices); plus large first documents (about 4090, 4096, 4100 and 9000 bytes: around the 4096-byte buffers of bufio and the tokenizer) followed by a small one, delivered whole, 1 byte, 7 bytes and 4096 bytes per Read (bound 0); the JSON functions also under JsonUseNumber (bound 1). Oracle: results = direct decodes in order then io.EOF, no over-read into the next document, Raw values as documented, handlers once per document in order and stop on false, termination within the reader horizon. non-trivial = executions with at least one deviation (counted in counters.deviating_schedules)."
+	c.S.Rule = "cases = (stream, function, reader kind, handler stop point); streams are concatenations of 1..3 documents (XML: <a/>, <a>x</a>, <a b=\"1\"><c/>t</a>, a document with XML declaration, a document with 2-, 3- and 4-byte characters in names and values (every delivery split falls inside them); JSON: {\"a\":1}, a string value with braces and quotes, a string ending in an escaped backslash, a string with an escaped backslash followed by an escaped quote, nested object/array with a bracket in a string, multi-byte characters in key and value) with separators {none, space, newline+tab} and optional trailing blanks; functions NewMapXmlReader[Raw], NewMapXmlSeqReader[Raw], NewMapJsonReader[Raw], HandleXmlReader[Raw], HandleJsonReader[Raw] (map handler returning false at every k), x2j-wrapper ToMap / XmlMsgsFromReader; reader kinds plain io.Reader and io.Reader+io.ByteReader. Schedules (E-choice): every Read call is a choice point - default full delivery, short read, (0,nil) (at most 2 in a row), final data together with io.EOF - explored exhaustively for deviation bound 0,1,2 (thorough: 3 on single documents and on two-document streams without separator of up to 90 bytes, 2 on such three-document streams of up to 70 bytes); plus patterned schedules with 50 and 97 empty reads before every delivery (bound 1 over the remaining choices); plus large first documents (about 4090, 4096, 4100 and 9000 bytes: around the 4096-byte buffers of bufio and the tokenizer) followed by a small one, delivered whole, 1 byte, 7 bytes and 4096 bytes per Read (bound 0); the JSON functions also under JsonUseNumber (bound 1). Oracle: results = direct decodes in order then io.EOF, no over-read into the next document, Raw values as documented, handlers once per document in order and stop on false, termination within the reader horizon. non-trivial = executions with at least one deviation (counted in counters.deviating_schedules)."
 	c.S.Assumptions = []string{"the empty JSON object {} is not in the alphabet (handlers treat an empty Map as 'nothing arrived yet' by design)", "an io.ByteReader cannot legally deliver a byte together with an error, so that kind has only the default schedule"}
 	xmlDocs := []string{`<a/>`, `<a>x</a>`, `<a b="1"><c/>t</a>`, `<?xml version="1.0"?><a>y</a>`, "<\u00e9 k=\"\u20ac\">\U0001F600</\u00e9>"}
 	jsonDocs := []string{`{"a":1}`, `{"a":"}{\""}`, `{"a":"x\\"}`, `{"a":{"b":[1,{"c":"]"}]}}`, `{"e":"\\\"{"}`, `{"p":"C:\\dir\\ "}`, "{\"\u00e9\":\"\u20ac\U0001F600\"}", "{\"p\":\"C:\\\\\u20ac\"}", `{ "a" : [ 1 , 2 ] }`, "{\n\t\"a\": \"x y\"\r\n}"}
@@ -568,6 +568,12 @@ func c13Run(c *Ctx) {
 		}
 		if c.Thorough && len(k.Docs) == 1 {
 			bound = 3
+		}
+		if c.Thorough && len(k.Docs) == 2 && k.Sep == "" && k.Trail == "" && k.StopAt == 0 && !k.Latin1 && len(k.Docs[0])+len(k.Docs[1]) <= 90 {
+			bound = 3 // the shortest two-document streams: three deviations can straddle the document boundary
+		}
+		if c.Thorough && len(k.Docs) == 3 && k.Sep == "" && k.Trail == "" && k.StopAt == 0 && len(k.Docs[0])+len(k.Docs[1])+len(k.Docs[2]) <= 70 {
+			bound = 2
 		}
 		if k.ByteRd {
 			bound = 0
